@@ -136,6 +136,40 @@ def typed_value_faults(ctx, rng, rounds):
                      "the refused alternative %r stands on line %d, the message cites line %s" % (bad, bad_line, mm.group(1)))
 
 
+def label_clause(text):
+    """the source label given to the parser travels with every line: each scope, definition (enabled or `!`-disabled)
+    and word, and every syntax error, cites `(label, line N)` exactly where the unlabelled parse cites `(input line N)`"""
+    def relabel(s):
+        return s.replace("input line ", "lbl, line ")
+
+    def outcome(**kw):
+        try:
+            return ("ok", freephil.parse(input_string=text, **kw))
+        except RuntimeError as e:
+            return ("err", str(e))
+    a, b = outcome(), outcome(source_info="lbl")
+    if a[0] != b[0]:
+        return "with a source label the parse %s, without it %s" % (b[0], a[0])
+    if a[0] == "err":
+        return None if relabel(a[1]) == b[1] else "labelled error %r, unlabelled %r" % (b[1][:120], a[1][:120])
+
+    def walk(x, y, path):
+        for p, q in zip(x.objects, y.objects):
+            name = path + p.name
+            if relabel(p.where_str) != q.where_str:
+                return "%s%s: where_str %r with a label, %r without" % ("!" if p.is_disabled else "", name, q.where_str, p.where_str)
+            if p.is_definition:
+                for u, v in zip(p.words, q.words):
+                    if relabel(u.where_str()) != v.where_str():
+                        return "word %r of %s: %r with a label, %r without" % (u.value, name, v.where_str(), u.where_str())
+            else:
+                r = walk(p, q, name + ".")
+                if r:
+                    return r
+        return None
+    return walk(a[1], b[1], "")
+
+
 def run(ctx):
     rng = ctx.rng
     n = ctx.scale(1500, 40000, 8000)
@@ -150,7 +184,7 @@ def run(ctx):
         ctx.case(text, nontrivial=nontriv)
         for f in feats:
             ctx.count(f)
-        f = check_lines(tree, text)
+        f = check_lines(tree, text) or label_clause(text)
         cases.append({"text": text, "fail": f})
         reqs.append(["parse", enc(text)])
         impls.append(call_j(lambda: freephil.parse(input_string=text), obj_j))
@@ -173,6 +207,9 @@ def run(ctx):
             ff = "faulty document gave %r" % (ia[:3],)
         elif ia[2] != site or ia[3] != want_line:
             ff = "error %s cites line %r; the faulty token (%s) is on line %d" % (ia[2], ia[3], site, want_line)
+        if ff is None:
+            # the same fault behind a `!`, and with a source label
+            ff = label_clause(doc) or label_clause(prefix_text + "!" + frag)
         cases.append({"text": doc, "fail": ff})
         reqs.append(["parse", enc(doc)])
         impls.append(ia)
